@@ -544,12 +544,13 @@ def atom_mapper(table: Dict[str, int]):
     return f
 
 
-def reach_condition(P, stmt: ast.stmt, mention: Optional[str] = None, keep=None) -> Optional[ast.expr]:
+def reach_condition(P, stmt: ast.stmt, mention: Optional[str] = None, keep=None, through_loops: bool = False) -> Optional[ast.expr]:
     """The condition under which ``stmt`` is reached within one iteration of its nearest enclosing loop (or within its
     function): the tests of the enclosing `if` statements together with the negations of the terminating guards
     (`if C: continue / return / raise / break`, no else) that precede it in the enclosing blocks.  Either spelling —
     nested `if` or early exit — gives an equivalent formula.  With ``mention``, only conjuncts naming that variable are kept.
-    Returns None when there is no such condition."""
+    Returns None when there is no such condition.  ``through_loops`` continues through enclosing loops up to the function
+    (for conditions that do not change between iterations, e.g. after loop unswitching)."""
     conj: List[ast.expr] = []
     child, cur = stmt, P.parent(stmt)
     while cur is not None:
@@ -563,7 +564,7 @@ def reach_condition(P, stmt: ast.stmt, mention: Optional[str] = None, keep=None)
                         conj.append(ast.UnaryOp(op=ast.Not(), operand=s.test))
                 if isinstance(cur, ast.If):
                     conj.append(cur.test if field == "body" else ast.UnaryOp(op=ast.Not(), operand=cur.test))
-        if isinstance(cur, (ast.For, ast.AsyncFor, ast.While, ast.FunctionDef, ast.AsyncFunctionDef, ast.Lambda)):
+        if isinstance(cur, (ast.FunctionDef, ast.AsyncFunctionDef, ast.Lambda)) or (not through_loops and isinstance(cur, (ast.For, ast.AsyncFor, ast.While))):
             break
         child, cur = cur, P.parent(cur)
     if mention is not None:
